@@ -4,10 +4,12 @@ package c05
 
 import (
 	"bytes"
+	"context"
 	"encoding/hex"
 	"fmt"
 	"io"
 	"slices"
+	"strings"
 
 	"github.com/c2FmZQ/ech"
 
@@ -90,6 +92,11 @@ func poolExt(i int) tlsref.Ext {
 		return tlsref.ECHInner()
 	case 23:
 		return tlsref.ECHOuter(1, 1, 42, nil, tlsref.DetBytes("garbage-payload", 150))
+	case 24:
+		// a server name longer than a DNS name can be (256 octets; HostName<1..2^16-1> allows it, crypto/tls reports it)
+		return tlsref.SNI(strings.Repeat("a", 63) + "." + strings.Repeat("b", 63) + "." + strings.Repeat("c", 63) + "." + strings.Repeat("d", 64))
+	case 25:
+		return tlsref.SNI(strings.Repeat("n", 300))
 	case 21:
 		return tlsref.ALPN("\x0a\x0a", "h2", "\xea\xea", "http/1.1")
 	case 17:
@@ -291,6 +298,55 @@ func Run(r *ev.Run) {
 	for _, exts := range [][]int{{0, 2, 22}, {22, 0, 2}, {22}, {0, 4, 22}} {
 		for _, ver := range []uint16{0x0301, 0x0303} {
 			evalHello(r, helloCase{Version: ver, SID: 32, Exts: exts, KeySet: 0}, ks, nil, "type-inner-without-keys")
+		}
+	}
+	for _, exts := range [][]int{{24, 1, 2}, {25, 2}, {24, 2, 9}} {
+		for ksi := range ks {
+			evalHello(r, helloCase{Version: 0x0303, SID: 32, Exts: exts, KeySet: ksi}, ks, nil, "server-name-over-255-octets")
+		}
+	}
+	// ---- two connections at once: what one connection still has to hand to its backend (here: the first record kept as the
+	// client sent it, because bytes follow the hello inside it) is its own - reading the other connection's hello meanwhile, or
+	// closing it, changes nothing ----
+	{
+		h1 := helloCase{Version: 0x0303, SID: 32, Exts: []int{0, 1, 2}}.build()
+		h2 := helloCase{Version: 0x0301, SID: 0, Exts: []int{12, 2, 9}}.build()
+		rec1 := tlsref.Record(22, 0x0301, append(h1.Msg(), 0x0b, 0, 0, 3, 1, 2, 3))
+		rec2 := tlsref.Record(22, 0x0301, append(h2.Msg(), bytes.Repeat([]byte{0xee}, len(rec1))...))
+		tail := tlsref.Record(23, 0x0303, tlsref.DetBytes("app", 50))
+		for ksi := range ks {
+			for order := 0; order < 2; order++ {
+				t1, t2 := memnet.New(), memnet.New()
+				t1.Feed(append(slices.Clone(rec1), tail...))
+				t1.End(io.EOF)
+				t2.Feed(append(slices.Clone(rec2), tail...))
+				t2.End(io.EOF)
+				var opts []ech.Option
+				if ks[ksi] != nil {
+					opts = append(opts, ech.WithKeys(ks[ksi]))
+				}
+				c1, err1 := ech.NewConn(context.Background(), t1, opts...)
+				c2, err2 := ech.NewConn(context.Background(), t2, opts...)
+				replay := map[string]any{"case": "two connections interleaved", "first_record_1": echx.Hex(rec1), "first_record_2": echx.Hex(rec2), "drain_order": order}
+				oc := "two-connections-independent"
+				if err1 != nil || err2 != nil {
+					r.Violation("valid-hello-refused:two-connections", fmt.Sprint(err1, err2), replay)
+				} else {
+					var got1, got2 []byte
+					if order == 0 {
+						got2, _ = io.ReadAll(c2)
+						got1, _ = io.ReadAll(c1)
+					} else {
+						got1, _ = io.ReadAll(c1)
+						got2, _ = io.ReadAll(c2)
+					}
+					if !bytes.Equal(got1, append(slices.Clone(rec1), tail...)) || !bytes.Equal(got2, append(slices.Clone(rec2), tail...)) {
+						oc = "two-connections-mixed-up"
+						r.Violation("bytes-modified:two-connections", fmt.Sprintf("two connections opened one after the other and then drained: connection 1 delivered %d bytes (sent %d, equal=%v), connection 2 %d bytes (sent %d, equal=%v)", len(got1), len(rec1)+len(tail), bytes.Equal(got1, append(slices.Clone(rec1), tail...)), len(got2), len(rec2)+len(tail), bytes.Equal(got2, append(slices.Clone(rec2), tail...))), replay)
+					}
+				}
+				r.Eval(fmt.Sprint("two-conns", ksi, order), oc)
+			}
 		}
 	}
 	// ---- bytes that follow the ClientHello message INSIDE the same handshake record (a second, coalesced handshake message or
